@@ -1,4 +1,4 @@
 SPECIFICATION Spec
-INVARIANTS EncTotal EmitCases
+INVARIANTS EncTotal NestedOK EmitCases
 CHECK_DEADLOCK FALSE
 CONSTANT GhostLen = 2
